@@ -29,24 +29,28 @@ def slot (h : Nat) : Nat := table.getD (h &&& (tableLen - 1)) 0
 
 /-- One probe: `int(a&0xff) == len(s) && match(a.string(), s)`; `none` = panic.
 `match` compares `a.string()[i]` with `s[i]` for every `i < len s`; the lengths are equal
-at this point, so it is list equality. -/
-def probe (a : Nat) (s : List Nat) : Option Bool :=
-  if a % 256 = s.length then (atomStr a).map (fun t => t == s) else some false
+at this point, so it is list equality. `strF` is `Atom.string`. -/
+def probeWith (strF : Nat → Option (List Nat)) (a : Nat) (s : List Nat) : Option Bool :=
+  if a % 256 = s.length then (strF a).map (fun t => t == s) else some false
 
-/-- `Lookup(s)`; `none` = panic. -/
-def lookup (s : List Nat) : Option Nat :=
+/-- `Lookup(s)` with the table access `slotF` and `Atom.string` = `strF` abstracted
+(so that the proofs can substitute provably equal, faster-to-evaluate accessors). `none` = panic. -/
+def lookupWith (slotF : Nat → Nat) (strF : Nat → Option (List Nat)) (s : List Nat) : Option Nat :=
   if s.length = 0 ∨ s.length > maxAtomLen then some 0 else
   let h := fnv hash0 s
-  let a := slot h
-  match probe a s with
+  let a := slotF h
+  match probeWith strF a s with
   | none => none
   | some true => some a
   | some false =>
-    let b := slot (h / 65536)
-    match probe b s with
+    let b := slotF (h / 65536)
+    match probeWith strF b s with
     | none => none
     | some true => some b
     | some false => some 0
+
+/-- `Lookup(s)`; `none` = panic. -/
+def lookup (s : List Nat) : Option Nat := lookupWith slot atomStr s
 
 /-- `atom.String(s []byte) string`: the interned name if `s` is an atom, else `string(s)`. -/
 def stringOf (s : List Nat) : Option (List Nat) :=
